@@ -51,13 +51,31 @@ func zzStubTicketKeyFromBytes(b [32]byte) (key ticketKey) {
 //
 //verif:property C20
 //verif:expect-reach end
-//verif:bound two logical threads over a cache of capacity 1 or 2 pre-filled with one entry: Put(k1)/Get(k0), Put(k1)/Put(k2), Get(k0)/Get(k0); footprint + lock-set check
+//verif:bound two logical threads over a cache of capacity 1 or 2 pre-filled with one entry: Put(k1)/Get(k0), Put(k1)/Put(k2), Get(k0)/Get(k0), and Get/Get of the older of two entries (Get reorders the list); footprint + lock-set check (a read lock held on both sides does not count as common)
 func zzH_c20_lru() {
 	capa := 1 + vChoice("cap", 2)
 	cache := NewLRUClientSessionCache(capa)
 	s0, s1, s2 := &ClientSessionState{}, &ClientSessionState{}, &ClientSessionState{}
 	cache.Put("k0", s0)
-	switch vChoice("ops", 3) {
+	switch vChoice("ops", 4) {
+	case 3:
+		// two entries, both goroutines look up the one at the back (Get moves it to the front)
+		if capa < 2 {
+			vReach("end")
+			return
+		}
+		cache.Put("k1", s1)
+		n := 1
+		if vNative() {
+			n = 3000
+		}
+		look := func() {
+			for i := 0; i < n; i++ {
+				cache.Get("k0")
+				cache.Get("k1")
+			}
+		}
+		vParallel(look, look)
 	case 0:
 		vParallel(func() { cache.Put("k1", s1) }, func() { cache.Get("k0") })
 	case 1:
